@@ -349,36 +349,66 @@ func TestVerifReplay(t *testing.T) {
 		list = append(list, rf.Func+"="+f)
 		res[f] = &NativeResult{File: f}
 	}
-	args := []string{"test", "-vet=off", "-count=1", "-run", "^TestVerifReplay$", "-timeout", "20m", "-overlay", ovf}
-	if race {
-		args = append(args, "-race")
-	}
-	args = append(args, "-v", "./"+pkgRel)
-	cmd := exec.Command("go", args...)
-	cmd.Dir = sym.RepoDir
-	cmd.Env = append(os.Environ(), "GOFLAGS=-mod=mod", "GOPROXY=off", "GOSUMDB=off", "GOTOOLCHAIN=local", "VERIF_REPLAY_LIST="+strings.Join(list, ";"))
-	out, _ := cmd.CombinedOutput()
-	var cur *NativeResult
-	for _, line := range strings.Split(string(out), "\n") {
-		line = strings.TrimSpace(line)
-		switch {
-		case strings.HasPrefix(line, "REPLAY-BEGIN "):
-			cur = res[strings.TrimPrefix(line, "REPLAY-BEGIN ")]
-			if cur != nil {
-				cur.Ran = true
-			}
-		case cur == nil:
-		case strings.HasPrefix(line, "REPLAY-INVALID "):
-			cur.Invalid = strings.TrimPrefix(line, "REPLAY-INVALID ")
-		case strings.HasPrefix(line, "REPLAY-PANIC "):
-			cur.Panic = strings.TrimPrefix(line, "REPLAY-PANIC ")
-		case strings.HasPrefix(line, "REPLAY-FAIL "):
-			cur.Failures = append(cur.Failures, strings.TrimPrefix(line, "REPLAY-FAIL "))
-		case strings.HasPrefix(line, "REPLAY-REACH "):
-			cur.Reached = append(cur.Reached, strings.TrimPrefix(line, "REPLAY-REACH "))
-		case strings.HasPrefix(line, "REPLAY-END "):
-			cur = nil
+	// A panic in a goroutine started by the code under test cannot be recovered by the
+	// driver: it kills the test binary. The replay being run at that moment is recorded as
+	// "process crashed" (a native panic), and the remaining replays run in a new process.
+	var out []byte
+	remaining := list
+	for round := 0; round <= len(files) && len(remaining) > 0; round++ {
+		args := []string{"test", "-vet=off", "-count=1", "-run", "^TestVerifReplay$", "-timeout", "20m", "-overlay", ovf}
+		if race {
+			args = append(args, "-race")
 		}
+		args = append(args, "-v", "./"+pkgRel)
+		cmd := exec.Command("go", args...)
+		cmd.Dir = sym.RepoDir
+		cmd.Env = append(os.Environ(), "GOFLAGS=-mod=mod", "GOPROXY=off", "GOSUMDB=off", "GOTOOLCHAIN=local", "VERIF_REPLAY_LIST="+strings.Join(remaining, ";"))
+		o, _ := cmd.CombinedOutput()
+		out = append(out, o...)
+		var cur *NativeResult
+		for _, line := range strings.Split(string(o), "\n") {
+			line = strings.TrimSpace(line)
+			switch {
+			case strings.HasPrefix(line, "REPLAY-BEGIN "):
+				cur = res[strings.TrimPrefix(line, "REPLAY-BEGIN ")]
+				if cur != nil {
+					cur.Ran = true
+				}
+			case cur == nil:
+			case strings.HasPrefix(line, "REPLAY-INVALID "):
+				cur.Invalid = strings.TrimPrefix(line, "REPLAY-INVALID ")
+			case strings.HasPrefix(line, "REPLAY-PANIC "):
+				cur.Panic = strings.TrimPrefix(line, "REPLAY-PANIC ")
+			case strings.HasPrefix(line, "REPLAY-FAIL "):
+				cur.Failures = append(cur.Failures, strings.TrimPrefix(line, "REPLAY-FAIL "))
+			case strings.HasPrefix(line, "REPLAY-REACH "):
+				cur.Reached = append(cur.Reached, strings.TrimPrefix(line, "REPLAY-REACH "))
+			case strings.HasPrefix(line, "REPLAY-END "):
+				cur = nil
+			}
+		}
+		if cur != nil {
+			// the process died inside this replay
+			why := "process crashed"
+			for _, line := range strings.Split(string(o), "\n") {
+				if strings.HasPrefix(line, "panic: ") || strings.HasPrefix(line, "fatal error: ") {
+					why = "process crashed: " + strings.TrimSpace(line)
+					break
+				}
+			}
+			cur.Panic = why
+		}
+		var next []string
+		for _, item := range remaining {
+			f := item[strings.Index(item, "=")+1:]
+			if r := res[f]; r != nil && !r.Ran {
+				next = append(next, item)
+			}
+		}
+		if cur == nil || len(next) == len(remaining) {
+			break
+		}
+		remaining = next
 	}
 	raced := strings.Contains(string(out), "WARNING: DATA RACE")
 	for _, r := range res {
